@@ -42,6 +42,11 @@ CLAIMS = {
         text='Static: package-wide definite assignment (251 functions); the pytree skeleton of the initial state of a preconditioned and a skipped parameter is pushed through _compute_stats -> _compute_preconditioners (pmap and pmap-quantized, root routines inlined) -> _transform_grad for every consistent valuation of 11 layout atoms (covering set quick, all ~900 thorough) and must come back unchanged, with both arms of every traced conditional on the way building the same tree; same for SM3 and Tearfree Shampoo/Sketchy; the sharded init / shape-dtype / partition-spec functions build one record, count statistics under the same guard, pad by (-N) mod D, take the maximal size over the same parameters and declare the dtypes init constructs; dispatch siblings agree; no axis-less squeeze; configuration-only assertions cannot fail for an accepted configuration; no dead store of a computed value. Necessary conditions of C07.',
         note='Trusted: arrays are leaves (shapes/dtypes not tracked except in the sharded declaration); tree.map/all_gather preserve structure; _pjit_compute_preconditioners unreachable. Undecided: update dtype under mixed precision, shape-dependent assertions, arbitrary trace-time errors.',
         design='4/C07'),
+    'C08': dict(
+        technique='AXIS abstract interpretation (batch-axis non-interference) over the value graph of Tearfree Shampoo block routines; einsum formula folded by partial evaluation for all structural cases; taint rule on Distributed Shampoo statistic plumbing; shared pairing rules',
+        text='Static: with statistics seeded as [N,d,d] from the init shape literal, every operation of _ema_update / _pth_inv_root keeps the blocks axis intact (no reduction without axis or over axis 0, no einsum dropping/renaming the block letter, no contraction outside vmap), the covariance is a vmap over the blocks axis contracting all other axes, each root comes from its own statistic; the einsum formula of _precondition_blocks, folded for every structural case, binds the blocks axis of update, roots and output to one letter and contracts each axis with its own root; in Distributed Shampoo the per-statistic values are only padded/stacked/batched/gathered/sliced/selected between collection and the vmapped root call and back; plus BlockPartitioner pairing, per-block slot slices, eigh padding mask and block contraction order. Necessary conditions of C08.',
+        note='Trusted: vmap/eigh batching semantics. Undecided: numerical independence from the common padding size; blocked == separate to tolerance.',
+        design='4/C08'),
 }
 
 NOT_BUILT_REASON = 'checker for this property not built yet (build phase in progress; see DESIGN.md section 9)'
